@@ -99,6 +99,8 @@ class CExec:
         self.brk, self.cont = [], []
         self.locals_addr_taken = set()
         self.decisions = []
+        self.lvrefs = {}
+        self.out_values = {}
 
     def sketch(self, n, limit=6):
         """A few identifying tokens of an expression (names it mentions)."""
@@ -179,6 +181,11 @@ class CExec:
             i = self.rvalue(n["inner"][1], st)
             return ("mem", self.tname(n), a + i)
         if k == "UnaryOperator" and n.get("opcode") == "*":
+            sub = n["inner"][0]
+            while sub["kind"] in ("ParenExpr", "ImplicitCastExpr"):
+                sub = sub["inner"][0]
+            if sub["kind"] == "DeclRefExpr" and sub["referencedDecl"]["id"] in self.lvrefs:
+                return self.lvrefs[sub["referencedDecl"]["id"]]     # out-parameter of an inlined callee
             p = self.rvalue(n["inner"][0], st)
             return ("mem", self.tname(n), p)
         if k in ("ImplicitCastExpr", "CStyleCastExpr"):
@@ -393,6 +400,11 @@ class CExec:
             f = {"==": va == vb, "!=": va != vb, "<": va < vb, "<=": va <= vb,
                  ">": va > vb, ">=": va >= vb}[op]
             return self.b2i(f)
+        if op in ("<<", ">>", "&", "|", "^"):
+            a, b = z3.simplify(va), z3.simplify(vb)
+            if z3.is_int_value(a) and z3.is_int_value(b):
+                x, y = a.as_long(), b.as_long()
+                return z3.IntVal({"<<": x << y, ">>": x >> y, "&": x & y, "|": x | y, "^": x ^ y}[op])
         if op == "/":
             vbs = z3.simplify(vb)
             if z3.is_int_value(vbs) and vbs.as_long() > 0:
@@ -441,7 +453,11 @@ class CExec:
         callee = n["inner"][0]
         name = self.callee_name(callee)
         args = [self.rvalue(a, st) for a in n["inner"][1:]]
+        self.out_values = {}
+        if name in self.inline_functions and name in self.tu.functions:
+            return self.inline(name, n["inner"][1:], args, st)
         r = self.on_call(name, args, n, st)
+        outv = self.out_values
         # out-parameters: a local whose address is passed may be written by the
         # callee (callees are assumed not to retain pointers to caller locals)
         for a in n["inner"][1:]:
@@ -454,6 +470,10 @@ class CExec:
                     t = t["inner"][0]
                 if t.get("kind") == "DeclRefExpr" and t["referencedDecl"].get("kind") in ("VarDecl", "ParmVarDecl"):
                     vid = t["referencedDecl"]["id"]
+                    pos = n["inner"][1:].index(a)
+                    if pos in outv:
+                        st.vars[vid] = outv[pos]
+                        continue
                     st.vars[vid] = fresh("out_%s" % t["referencedDecl"].get("name", "x"))
                     for kk in list(st.vars):
                         if isinstance(kk, tuple) and kk[0] == vid:
@@ -463,6 +483,39 @@ class CExec:
                     if lv[0] == "var":
                         st.vars[lv[1]] = fresh("out")
         return r
+
+    inline_functions = ()
+
+    def inline(self, name, arg_nodes, args, st):
+        """Execute the body of a small TU function in place (same heap and
+        ghost state); `&local` arguments become references to the caller's
+        lvalue."""
+        fn = self.tu.functions[name]
+        params = [p for p in fn.get("inner", []) if p["kind"] == "ParmVarDecl"]
+        for p, an, av in zip(params, arg_nodes, args):
+            x = an
+            while x.get("kind") in ("ParenExpr", "ImplicitCastExpr", "CStyleCastExpr"):
+                x = x["inner"][0]
+            if x.get("kind") == "UnaryOperator" and x.get("opcode") == "&":
+                self.lvrefs[p["id"]] = self.lvalue(x["inner"][0], st)
+            st.vars[p["id"]] = av
+            self.local_ids.add(p["id"])
+        saved = (self.returns, self.pending, self.brk, self.cont)
+        self.returns, self.pending, self.brk, self.cont = [], {}, [], []
+        body = [c for c in fn["inner"] if c["kind"] == "CompoundStmt"][0]
+        out = self.stmt(body, st.clone())
+        rets = self.returns + ([(out, None)] if out is not None and not is_false(out.guard) else [])
+        self.returns, self.pending, self.brk, self.cont = saved
+        if not rets:
+            raise Unsupported("inlined %s never returns" % name)
+        val = None
+        for s1, v in rets:
+            v = v if v is not None else z3.IntVal(0)
+            val = v if val is None else z3.If(s1.guard, v, val)
+        g = st.guard
+        st.become(merge_all([r[0] for r in rets]))
+        st.guard = g
+        return val
 
     def callee_name(self, c):
         while c["kind"] in ("ImplicitCastExpr", "ParenExpr", "CStyleCastExpr"):
